@@ -13,7 +13,7 @@ import z3
 
 from .values import (Unsupported, EngineError, is_z3, is_boolish, is_intish, is_realish,
                      is_numish, concretize, simp, Z, ZB, ZR, EnumV, Opt, SymList, EmptyList,
-                     SymSet, Obj, ActionV, ClassRef, TypeV, FuncV, RangeV, IndexV, Grid2, GridRow, DictV, ObjList, RowRef, PartialV, ListLit, SymMap2, NdArray3, INF, Inf,
+                     SymSet, Obj, ActionV, ClassRef, TypeV, FuncV, RangeV, IndexV, Grid2, GridRow, ExtV, DictV, ObjList, RowRef, PartialV, ListLit, SymMap2, NdArray3, INF, Inf,
                      STORAGE_CODES,
                      STEPTYPE)
 from .source import AnchorError
@@ -587,15 +587,24 @@ class Engine:
     def qf(self, pc):
         return [c for c in pc if not self.has_quantifier(c)]
 
-    def _check(self, assertions):
+    def _check(self, assertions, strong=False):
         """sat / unsat / unknown of a quantifier-free conjunction under the small deterministic
-        resource limit (unknown keeps the path: sound, it only makes more paths feasible)."""
+        resource limit (unknown keeps the path: sound, it only makes more paths feasible).
+        strong: an unknown is retried once with a limit 100 times larger (used where the engine
+        would otherwise have to give up on the function)."""
         self.solver.push()
         try:
             self.solver.add(*assertions)
-            return self.solver.check()
+            r = self.solver.check()
         finally:
             self.solver.pop()
+        if r == z3.unknown and strong:
+            s2 = z3.Solver()
+            s2.set("rlimit", 6000000)
+            s2.set("timeout", 30000)
+            s2.add(*assertions)
+            r = s2.check()
+        return r
 
     def strongly_infeasible(self, st):
         """Used when a path runs into a construct outside the verified subset: before giving up
@@ -613,7 +622,7 @@ class Engine:
             return True
         return self._check(self.qf(st.pc)) != z3.unsat
 
-    def decide(self, st, cond):
+    def decide(self, st, cond, strong=False):
         """(can_be_true, can_be_false) under the path condition."""
         if cond is True:
             return True, False
@@ -623,8 +632,8 @@ class Engine:
         if self.has_quantifier(c):
             return True, True
         base = self.qf(st.pc)
-        t = self._check(base + [c]) != z3.unsat
-        f = self._check(base + [z3.Not(c)]) != z3.unsat
+        t = self._check(base + [c], strong) != z3.unsat
+        f = self._check(base + [z3.Not(c)], strong) != z3.unsat
         return t, f
 
     # ------------------------------------------------------------------ arithmetic
@@ -848,11 +857,17 @@ class Engine:
         raise Unsupported("truth value of %s" % type(v).__name__)
 
     # ------------------------------------------------------------------ expressions
-    def ev(self, node, st):
+    def ev(self, node, st, ext_ok=False):
         m = getattr(self, "ev_" + type(node).__name__, None)
         if m is None:
             raise Unsupported("expression %s at line %s" % (type(node).__name__, getattr(node, "lineno", "?")))
-        return m(node, st)
+        v = m(node, st)
+        if isinstance(v, ExtV) and not ext_ok:
+            # arithmetic on float('inf') is outside the encoding except in sums and comparisons:
+            # anywhere else the table entry that was read must have been filled
+            self.oblige(st, Not(v.inf), "table_entry_is_finite", node)
+            return v.val
+        return v
 
     def ev_Constant(self, n, st):
         v = n.value
@@ -957,8 +972,15 @@ class Engine:
         raise Unsupported("attribute %s on %s" % (attr, type(base).__name__))
 
     def ev_BinOp(self, n, st):
-        a = self.ev(n.left, st)
-        b = self.ev(n.right, st)
+        ext = isinstance(n.op, ast.Add)
+        a = self.ev(n.left, st, ext_ok=ext)
+        b = self.ev(n.right, st, ext_ok=ext)
+        if isinstance(a, ExtV) or isinstance(b, ExtV):
+            if isinstance(a, (SymList, ListLit, EmptyList)) or isinstance(b, (SymList, ListLit, EmptyList)):
+                raise Unsupported("list of extended reals")
+            ai, av = (a.inf, a.val) if isinstance(a, ExtV) else (False, a)
+            bi, bv = (b.inf, b.val) if isinstance(b, ExtV) else (False, b)
+            return ExtV(Or(ai, bi), self.arith(ast.Add(), av, bv, st, n))     # inf + x == inf
         return self.arith(n.op, a, b, st, n)
 
     def ev_UnaryOp(self, n, st):
@@ -994,13 +1016,28 @@ class Engine:
         return And(*vals) if isinstance(n.op, ast.And) else Or(*vals)
 
     def ev_Compare(self, n, st):
-        left = self.ev(n.left, st)
+        ordering = all(isinstance(op, (ast.Lt, ast.LtE, ast.Gt, ast.GtE)) for op in n.ops)
+        left = self.ev(n.left, st, ext_ok=ordering)
         res = []
         for op, rn in zip(n.ops, n.comparators):
-            right = self.ev(rn, st)
-            res.append(self.compare_op(op, left, right, st, n))
+            right = self.ev(rn, st, ext_ok=ordering)
+            if isinstance(left, ExtV) or isinstance(right, ExtV):
+                res.append(self.ext_compare(op, left, right))
+            else:
+                res.append(self.compare_op(op, left, right, st, n))
             left = right
         return And(*res)
+
+    def ext_compare(self, op, a, b):
+        """Ordering of extended reals (only +inf occurs)."""
+        ai, av = (a.inf, a.val) if isinstance(a, ExtV) else (False, a)
+        bi, bv = (b.inf, b.val) if isinstance(b, ExtV) else (False, b)
+        if isinstance(op, (ast.Gt, ast.GtE)):
+            ai, av, bi, bv = bi, bv, ai, av
+            op = ast.Lt() if isinstance(op, ast.Gt) else ast.LtE()
+        if isinstance(op, ast.Lt):
+            return And(Not(ai), Or(bi, self.cmp(ast.Lt(), av, bv)))
+        return Or(bi, And(Not(ai), self.cmp(ast.LtE(), av, bv)))
 
     def compare_op(self, op, a, b, st, node):
         if isinstance(op, (ast.In, ast.NotIn)):
@@ -1314,6 +1351,14 @@ class Engine:
             # symbolic index into a concrete tuple
             self.oblige(st, And(self.cmp(ast.GtE(), idx, -len(base)), self.cmp(ast.Lt(), idx, len(base))),
                         "index_in_range", node)
+            if not st.spec_mode and is_intish(idx):
+                # the path condition may force one position (K != 0 and 0 <= K <= 1)
+                possible = [k for k in range(-len(base), len(base))
+                            if self.decide(st, self.equal(idx, k), strong=True)[0]]
+                if len(possible) == 1:
+                    return base[possible[0]]
+            if any(not (is_numish(x) or is_boolish(x) or isinstance(x, EnumV)) for x in base):
+                raise Unsupported("symbolic index into a tuple of %s" % type(base[0]).__name__)
             res = base[-1]
             for k in range(len(base) - 2, -1, -1):
                 res = Ite(Or(self.equal(idx, k), self.equal(idx, k - len(base))), base[k], res)
@@ -1331,10 +1376,9 @@ class Engine:
             if not st.spec_mode:
                 self.oblige(st, And(self.cmp(ast.GtE(), idx, 0), self.cmp(ast.Lt(), idx, g.d1)),
                             "index_in_range", node)
-                # arithmetic on float('inf') is outside the encoding: every entry that is read
-                # must have been filled
-                self.oblige(st, Not(simp(z3.Select(z3.Select(g.inf, Z(base.row)), Z(idx)))),
-                            "table_entry_is_finite", node)
+                infbit = simp(z3.Select(z3.Select(g.inf, Z(base.row)), Z(idx)))
+                if infbit is not False:
+                    return ExtV(infbit, simp(z3.Select(z3.Select(g.val, Z(base.row)), Z(idx))))
             return simp(z3.Select(z3.Select(g.val, Z(base.row)), Z(idx)))
         if isinstance(base, IndexV):
             if not isinstance(idx, int) or idx not in (0, 1):
@@ -1487,7 +1531,7 @@ class Engine:
             v, cs = self.fresh("bool", "nd")
             return v
         args = [self.ev(a, st) for a in n.args]
-        kw = {k.arg: self.ev(k.value, st) for k in n.keywords}
+        kw = {(k.arg if k.arg is not None else "**"): self.ev(k.value, st) for k in n.keywords}
         v, i = st.lookup(name)
         if isinstance(v, PartialV):
             kw2 = dict(v.kwargs)
@@ -1519,7 +1563,10 @@ class Engine:
             if len(args) != len(ACTION_KINDS[name]):
                 raise Unsupported("wrong number of arguments to %s" % name)
             return ActionV(name, args)
-        c = self.reg.function_contract(name, (st.frames[-1].func or self.fi))
+        if name in self.contract.callees and (st.frames[-1].func or self.fi) is self.fi:
+            c = self.reg.contracts[self.contract.callees[name]]
+        else:
+            c = self.reg.function_contract(name, (st.frames[-1].func or self.fi))
         if c is not None:
             args = [self.row_object(a, st, n) if isinstance(a, RowRef) else a for a in args]
             return self.call_contract(c, args, kw, st, n)
@@ -1576,15 +1623,32 @@ class Engine:
                 st2.spec_mode += 1
                 vals.append(self.truth(self.ev(lam.body, st2), st2, n))
             return And(*vals) if name == "forall" else Or(*vals)
-        vs = [z3.Int("%s!%d" % (a, next(self.fresh_id))) for a in names]
-        st2 = st.fork()
-        st2.frames.append(Frame(dict(zip(names, vs)), len(st2.frames) - 1, st.frames[-1].func))
-        st2.spec_mode += 1
-        body = self.truth(self.ev(lam.body, st2), st2, n)
-        rng = z3.And(*[z3.And(Z(lo) <= v, v < Z(hi)) for v in vs])
+        # forall(a, b, lambda x: forall(c, d, lambda y: P)) becomes one quantifier over (x, y): a
+        # nested quantifier hides the term P's trigger from the outer variable
+        vs_all, rngs = [], []
+        cur_n, cur_st = n, st
+        while True:
+            lam = cur_n.args[2]
+            names = [a.arg for a in lam.args.args]
+            lo = self.ev(cur_n.args[0], cur_st)
+            hi = self.ev(cur_n.args[1], cur_st)
+            vs = [z3.Int("%s!%d" % (a, next(self.fresh_id))) for a in names]
+            st2 = cur_st.fork()
+            st2.frames.append(Frame(dict(zip(names, vs)), len(st2.frames) - 1, cur_st.frames[-1].func))
+            st2.spec_mode += 1
+            vs_all += vs
+            rngs += [z3.And(Z(lo) <= v, v < Z(hi)) for v in vs]
+            b = lam.body
+            if isinstance(b, ast.Call) and isinstance(b.func, ast.Name) and b.func.id == name and \
+                    len(b.args) == 3 and isinstance(b.args[2], ast.Lambda):
+                cur_n, cur_st = b, st2
+                continue
+            body = self.truth(self.ev(b, st2), st2, n)
+            break
+        rng = z3.And(*rngs)
         if name == "forall":
-            return z3.ForAll(vs, z3.Implies(rng, ZB(body)))
-        return z3.Exists(vs, z3.And(rng, ZB(body)))
+            return z3.ForAll(vs_all, z3.Implies(rng, ZB(body)))
+        return z3.Exists(vs_all, z3.And(rng, ZB(body)))
 
     # builtins -----------------------------------------------------------
     def builtin_len(self, args, kw, st, n):
@@ -1871,6 +1935,12 @@ class Engine:
         for nm, a in zip(names, args):
             bound[nm] = a
         for k, v in kw.items():
+            if k == "**":
+                # f(..., **d): d becomes the callee's **kwargs dictionary (declared in the sidecar)
+                if not c.kwargs_param or not isinstance(v, DictV):
+                    raise Unsupported("** argument for %s" % c.name)
+                bound[c.kwargs_param] = v
+                continue
             if k not in c.params:
                 raise Unsupported("unknown keyword %s for %s" % (k, c.name))
             bound[k] = v
